@@ -1,3 +1,201 @@
-/-! # C20 — property theorems (stub: filled in when the property's model is built) -/
+import ScenicModel.Props.C20Links
+import ScenicModel.Props.C20Lookup
+import ScenicModel.Props.C20Cache
+import ScenicModel.Gen.Roads
+/-!
+# C20 — road networks are internally consistent: property theorems on the data regenerated from /repo
+
+`Scenic.Gen.Roads` (passes of `findPointIn`, the lookup table with its priority orders, the header
+layout / exception classes of the `.snet` cache, the separators of `deterministicHash`) is rewritten
+from roads.py / serialization.py on every check run; the side conditions `gen_*` are re-decided by
+the kernel on that data, and the theorems below are the generic ones instantiated on it.
+
+Generic theorems (proved for every network / point / file):
+* `linksReciprocal_spec`, `rule_check_iff` — Props/C20Links.lean, with the consequences
+  `owner_unique`, `section_lane_unique`, `lane_owner_chain`, `opposite_involutive`,
+  `adjacent_symmetric`, `maneuver_path`;
+* `lookup_sound`, `lookup_first`, `lookup_complete`, `lookup_exact_priority`,
+  `lookup_zero_tolerance`, `elementAt_priority`, `lane_in_road_found` — Props/C20Lookup.lean;
+* `fromPickle_ok_iff`, `cache_used_iff_keys_equal`, `cache_never_raises`, `dump_load_roundtrip`,
+  `second_load_uses_cache`, `options_preimage_injective` — Props/C20Cache.lean.
+
+Not proved (explored by the check on every shipped map): the geometric clauses — that the exported
+containment facts come from polygons in which children lie inside their parents, that the drivable
+area is covered, that the reported direction is the tangent of the nearest centreline segment.
+-/
 namespace Scenic.C20
+open Scenic.Roads Scenic.RoadCache Scenic.Gen.Roads
+
+/-! ### side conditions on the generated data -/
+
+/-- `findPointIn` runs the exact pass, then the tolerant pass guarded by `tolerance > 0` -/
+theorem gen_passes : passes = [.exact, .tolerant] := by decide
+
+/-- every exception class raised by `fromPickle` is caught by `fromFile`; the format version fits
+its field; the digests have the lengths of `blake2b()` / `deterministicHash(digest_size=8)` -/
+theorem gen_cache_wf : CaughtAll cacheCfg ∧ cacheCfg.formatVersion < 256 ^ cacheCfg.versionBytes ∧
+    cacheCfg.versionBytes = 4 ∧ cacheCfg.digestBytes = 64 ∧ cacheCfg.optionsBytes = 8 := by
+  unfold CaughtAll; decide
+
+/-- the lookup table: documented priority order of `elementAt` (Intersection → Road → Shoulder →
+Sidewalk), `roadAt` over ordinary then connecting roads, and the two-stage lookups -/
+theorem gen_lookups :
+    lookups.lookup "elementAt" = some { first := [[.intersections], [.roads], [.shoulders], [.sidewalks]] } ∧
+    lookups.lookup "roadAt" = some { first := [[.roads], [.connecting]] } ∧
+    lookups.lookup "laneAt" = some { first := [[.lanes]] } ∧
+    lookups.lookup "laneSectionAt" = some { first := [[.lanes]], child := some [[.sections]] } ∧
+    lookups.lookup "laneGroupAt" = some { first := [[.roads], [.connecting]], child := some [[.groups]] } ∧
+    lookups.lookup "intersectionAt" = some { first := [[.intersections]] } ∧
+    lookups.lookup "nominalDirElem" = some { first := [[.intersections], [.roads], [.shoulders]] } := by
+  decide
+
+/-- separators of `deterministicHash`: `\0K` before a key, `\0V` before a value -/
+theorem gen_hash_wf : hashCfg.sepKey = [0, 75] ∧ hashCfg.sepVal = [0, 86] ∧ hashCfg.placeholder = [0] := by
+  decide
+
+/-! ### the theorems on the generated data -/
+
+/-- `findPointIn` of the current source (passes as generated) is the two-pass lookup of the model -/
+theorem gen_findPointIn (tolPos : Bool) (pf : PointFacts) (es : List Nat) :
+    findPointInWith passes tolPos pf es = findPointIn tolPos pf es := by
+  rw [gen_passes]; rfl
+
+theorem gen_lookup_sound (tolPos : Bool) (pf : PointFacts) (es : List Nat) (r : Nat)
+    (h : findPointInWith passes tolPos pf es = some r) :
+    r ∈ es ∧ (r ∈ pf.exact ∨ (tolPos = true ∧ r ∈ pf.near ∧ ∀ x ∈ es, x ∉ pf.exact)) :=
+  lookup_sound tolPos pf es r (gen_findPointIn tolPos pf es ▸ h)
+
+theorem gen_lookup_complete (tolPos : Bool) (pf : PointFacts) (es : List Nat) :
+    findPointInWith passes tolPos pf es = none ↔
+      (∀ x ∈ es, x ∉ pf.exact) ∧ (tolPos = true → ∀ x ∈ es, x ∉ pf.near) := by
+  rw [gen_findPointIn]; exact lookup_complete tolPos pf es
+
+/-- `elementAt` of the current source: an intersection containing the point wins; otherwise a road
+containing it wins over shoulders and sidewalks -/
+theorem gen_elementAt_priority (n : Network) (tolPos : Bool) (pf : PointFacts) (d : LookupDef)
+    (hd : lookups.lookup "elementAt" = some d) :
+    ((∃ x ∈ n.field .intersections 0, x ∈ pf.exact) →
+      ∃ r ∈ n.field .intersections 0, lookupWith passes n tolPos pf d = some r ∧ r ∈ pf.exact) ∧
+    ((∀ x ∈ n.field .intersections 0, x ∉ pf.exact) → (∃ x ∈ n.field .roads 0, x ∈ pf.exact) →
+      ∃ r ∈ n.field .roads 0, lookupWith passes n tolPos pf d = some r ∧ r ∈ pf.exact) := by
+  have hd' := gen_lookups.1
+  rw [hd] at hd'
+  cases hd'
+  have hev : n.eval [[.intersections], [.roads], [.shoulders], [.sidewalks]] 0 =
+      n.field .intersections 0 ++ n.field .roads 0 ++ n.field .shoulders 0 ++ n.field .sidewalks 0 := by
+    simp [Network.eval, Network.path]
+  have hl : ∀ r, lookupWith passes n tolPos pf
+      { first := [[.intersections], [.roads], [.shoulders], [.sidewalks]] } = r ↔
+      findPointIn tolPos pf (n.field .intersections 0 ++ n.field .roads 0 ++ n.field .shoulders 0 ++
+        n.field .sidewalks 0) = r := by
+    intro r
+    unfold lookupWith
+    simp only [gen_findPointIn, hev]
+  have := elementAt_priority tolPos pf (n.field .intersections 0) (n.field .roads 0)
+    (n.field .shoulders 0) (n.field .sidewalks 0)
+  constructor
+  · intro h
+    obtain ⟨r, hr, hf, he⟩ := this.1 h
+    exact ⟨r, hr, (hl _).mpr hf, he⟩
+  · intro h1 h2
+    obtain ⟨r, hr, hf, he⟩ := this.2 h1 h2
+    exact ⟨r, hr, (hl _).mpr hf, he⟩
+
+/-- the cache of the current source is used iff version, map digest and options digest all match -/
+theorem gen_cache_used_iff {α : Type} (unpickle : Bytes → Option α) (parse a : α)
+    (useCache : Bool) (cacheFile : Option Bytes) (digest optDigest : Bytes)
+    (hd : digest.length = 64) (ho : optDigest.length = 8) :
+    fromFile cacheCfg unpickle parse useCache cacheFile digest optDigest = .cached a ↔
+      useCache = true ∧ ∃ v payload, cacheFile = some (v ++ (digest ++ (optDigest ++ payload))) ∧
+        v.length = 4 ∧ leDecode v = cacheCfg.formatVersion ∧ unpickle payload = some a := by
+  have hw := gen_cache_wf
+  have hd' : digest ≠ [] := by intro h; rw [h] at hd; cases hd
+  have ho' : optDigest ≠ [] := by intro h; rw [h] at ho; cases ho
+  rw [cache_used_iff_keys_equal cacheCfg unpickle parse a useCache cacheFile digest optDigest hd' ho']
+  rw [hw.2.2.1, hw.2.2.2.1, hw.2.2.2.2]
+  constructor
+  · rintro ⟨h1, v, p, h2, h3, h4, _, _, h5⟩; exact ⟨h1, v, p, h2, h3, h4, h5⟩
+  · rintro ⟨h1, v, p, h2, h3, h4, h5⟩; exact ⟨h1, v, p, h2, h3, h4, hd, ho, h5⟩
+
+/-- with the exception classes of the current source, a cache that is not used is ignored -/
+theorem gen_cache_never_raises {α : Type} (unpickle : Bytes → Option α) (parse : α)
+    (useCache : Bool) (cacheFile : Option Bytes) (digest optDigest : Bytes) :
+    (∃ a, fromFile cacheCfg unpickle parse useCache cacheFile digest optDigest = .cached a) ∨
+    fromFile cacheCfg unpickle parse useCache cacheFile digest optDigest = .parsed parse :=
+  cache_never_raises cacheCfg gen_cache_wf.1 unpickle parse useCache cacheFile digest optDigest
+
+theorem gen_dump_load_roundtrip {α : Type} (pickle : α → Bytes) (unpickle : Bytes → Option α)
+    (hpu : ∀ a, unpickle (pickle a) = some a) (a : α) (d o d' o' : Bytes)
+    (hd : d.length = 64) (ho : o.length = 8) (hd' : d' ≠ []) (ho' : o' ≠ []) :
+    fromPickle cacheCfg unpickle (dumpPickle cacheCfg pickle a d o) (some d') (some o') = .ok a ↔
+      d' = d ∧ o' = o :=
+  dump_load_roundtrip cacheCfg gen_cache_wf.2.1 pickle unpickle hpu a d o d' o'
+    (by rw [gen_cache_wf.2.2.2.1]; exact hd) (by rw [gen_cache_wf.2.2.2.2]; exact ho) hd' ho'
+
+theorem gen_options_injective (a b : List (Bytes × Option Bytes)) (ha : Plain a) (hb : Plain b)
+    (h : encodeOptions hashCfg a = encodeOptions hashCfg b) : a = b :=
+  options_preimage_injective hashCfg gen_hash_wf.1 gen_hash_wf.2.1 a b ha hb h
+
+/-! ### examples: the hypotheses are satisfiable, the statements are not vacuous -/
+
+/-- a one-road network: network, road, forward group, two adjacent lanes, one road section, two lane sections -/
+def demoNet : Network := { elems := #[
+  { kind := .network, fields := [(.roads, [1]), (.groups, [2]), (.lanes, [3, 4]), (.sections, [5]),
+      (.laneSections, [6, 7])] },
+  { kind := .road, fields := [(.lanes, [3, 4]), (.forward, [2]), (.groups, [2]), (.sections, [5])] },
+  { kind := .laneGroup, fields := [(.road, [1]), (.lanes, [3, 4])] },
+  { kind := .lane, fields := [(.group, [2]), (.road, [1]), (.sections, [6]), (.adjacent, [4])] },
+  { kind := .lane, fields := [(.group, [2]), (.road, [1]), (.sections, [7]), (.adjacent, [3])] },
+  { kind := .roadSection, fields := [(.road, [1]), (.lanes, [6, 7]), (.forward, [6, 7])] },
+  { kind := .laneSection, fields := [(.lane, [3]), (.group, [2]), (.road, [1]), (.left, [7]),
+      (.adjacent, [7]), (.faster, [7])] },
+  { kind := .laneSection, fields := [(.lane, [4]), (.group, [2]), (.road, [1]), (.right, [6]),
+      (.adjacent, [6]), (.slower, [6])] }] }
+
+/-- the same network with lane 4 claiming another group: ownership is no longer reciprocal -/
+def brokenNet : Network := { elems := #[
+  { kind := .network, fields := [(.roads, [1]), (.groups, [2]), (.lanes, [3, 4]), (.sections, [5]),
+      (.laneSections, [6, 7])] },
+  { kind := .road, fields := [(.lanes, [3, 4]), (.forward, [2]), (.groups, [2]), (.sections, [5])] },
+  { kind := .laneGroup, fields := [(.road, [1]), (.lanes, [3, 4])] },
+  { kind := .lane, fields := [(.group, [2]), (.road, [1]), (.sections, [6]), (.adjacent, [4])] },
+  { kind := .lane, fields := [(.group, [1]), (.road, [1]), (.sections, [7]), (.adjacent, [3])] },
+  { kind := .roadSection, fields := [(.road, [1]), (.lanes, [6, 7]), (.forward, [6, 7])] },
+  { kind := .laneSection, fields := [(.lane, [3]), (.group, [2]), (.road, [1]), (.left, [7]),
+      (.adjacent, [7]), (.faster, [7])] },
+  { kind := .laneSection, fields := [(.lane, [4]), (.group, [2]), (.road, [1]), (.right, [6]),
+      (.adjacent, [6]), (.slower, [6])] }] }
+
+example : linksReciprocal demoNet = true := by decide +kernel
+example : Reciprocal demoNet := (linksReciprocal_spec demoNet).mp (by decide +kernel)
+example : linksReciprocal brokenNet = false := by decide +kernel
+example : ¬ Reciprocal brokenNet := fun h =>
+  absurd ((linksReciprocal_spec brokenNet).mpr h) (by decide +kernel)
+
+-- a road (9) contains the point, an intersection (5) is only within tolerance: the road wins
+example : findPointIn true { exact := [9], near := [5, 9] } [5, 9] = some 9 := by decide
+-- nothing contains the point: first element of the list within tolerance
+example : findPointIn true { exact := [], near := [9, 5] } [5, 9] = some 5 := by decide
+-- zero tolerance: no tolerant pass
+example : findPointIn false { exact := [], near := [9, 5] } [5, 9] = none := by decide
+-- hypotheses of `lane_in_road_found` on two roads with two lanes each; the second road contains the point
+example : findPointIn true { exact := [2, 21], near := [2, 21, 1] } ([1, 2].flatMap fun r => [10 * r, 10 * r + 1])
+    = some 21 := by decide
+
+-- the header written by `dumpPickle` for 64 + 8 digest bytes is accepted with the same digests only
+example : fromPickle cacheCfg (fun _ => some ()) (header cacheCfg (List.replicate 64 7) (List.replicate 8 9))
+    (some (List.replicate 64 7)) (some (List.replicate 8 9)) = .ok () := by decide +kernel
+example : fromPickle cacheCfg (fun _ => some ()) (header cacheCfg (List.replicate 64 7) (List.replicate 8 9))
+    (some (List.replicate 64 7)) (some (List.replicate 8 1)) = .err .digestMismatch := by decide +kernel
+example : fromFile cacheCfg (fun _ => some 1) 2 true
+    (some (header cacheCfg (List.replicate 64 7) (List.replicate 8 9))) (List.replicate 64 7) (List.replicate 8 1)
+    = .parsed 2 := by decide +kernel
+-- `{"a": "b"}` and `{"ab": ""}`-style confusions are separated by the NUL-prefixed separators
+example : encodeOptions hashCfg [([97], some [98])] ≠ encodeOptions hashCfg [([97, 98], some [])] := by decide
+example : Plain [([97], some [98])] := by
+  intro kv hkv
+  simp at hkv
+  subst hkv
+  exact ⟨by intro x hx; simp at hx; subst hx; decide, [98], rfl, by intro x hx; simp at hx; subst hx; decide⟩
+
 end Scenic.C20
